@@ -10,8 +10,11 @@ import (
 	"fmt"
 	"io"
 	"io/fs"
+	"os"
+	"path/filepath"
 	"strings"
 	"testing/fstest"
+	tt "text/template"
 	"time"
 
 	mail "github.com/wneessen/go-mail"
@@ -380,6 +383,33 @@ type Built struct {
 	Msg       *mail.Msg
 	Producers []*Producer // parts first, then embeds, then attachments
 	BuildErr  error
+	TmpFiles  []string // files created for path-based sources
+}
+
+// Cleanup removes the files created for path-based sources.
+func (b *Built) Cleanup() {
+	for _, f := range b.TmpFiles {
+		_ = os.Remove(f)
+	}
+}
+
+func sanitizeName(n string) string {
+	var sb strings.Builder
+	for _, c := range n {
+		if c == '/' || c == 0 || c == '\\' {
+			sb.WriteByte('_')
+		} else {
+			sb.WriteRune(c)
+		}
+	}
+	r := sb.String()
+	if len(r) > 80 {
+		r = r[:80]
+	}
+	if r == "" {
+		r = "x"
+	}
+	return r
 }
 
 // AnyFired reports whether any producer returned its injected error since the counters were reset.
@@ -534,6 +564,26 @@ func BuildMsg(s MsgSpec, o BuildOpts) *Built {
 				m.EmbedReadSeeker(f.Name, r, fopts...)
 			} else {
 				m.AttachReadSeeker(f.Name, r, fopts...)
+			}
+		case "file":
+			// a real file in the per-process scratch directory (path-based source)
+			dir := filepath.Join(ScratchDir, "files-"+s.Token)
+			_ = os.MkdirAll(dir, 0o755)
+			path := filepath.Join(dir, fmt.Sprintf("f%d-%s", len(b.Producers), sanitizeName(f.Name)))
+			fail(os.WriteFile(path, f.Content.Data, 0o644))
+			b.TmpFiles = append(b.TmpFiles, path)
+			if embed {
+				m.EmbedFile(path, append(fopts, mail.WithFileName(f.Name))...)
+			} else {
+				m.AttachFile(path, append(fopts, mail.WithFileName(f.Name))...)
+			}
+		case "tmpl":
+			tpl, terr := tt.New("t").Parse("{{.}}")
+			fail(terr)
+			if embed {
+				fail(m.EmbedTextTemplate(f.Name, tpl, string(f.Content.Data), fopts...))
+			} else {
+				fail(m.AttachTextTemplate(f.Name, tpl, string(f.Content.Data), fopts...))
 			}
 		case "fs":
 			fsys := faultFS{name: f.Name, p: pr}
